@@ -106,7 +106,7 @@ def run(name, tests=False, tier="quick", checks=None):
                                stderr=subprocess.STDOUT)
             out = p.stdout.decode()
             kinds = sorted(set(l.split("kind=")[1].split()[0] for l in out.splitlines() if l.startswith("  kind=")))
-            res[cid] = ("CAUGHT" if p.returncode == 1 else "missed(exit %d)" % p.returncode) + " " + ",".join(kinds)
+            res[cid] = ("CAUGHT" if (p.returncode == 1 and "VIOLATION property=" in out) else "missed(exit %d)" % p.returncode) + " " + ",".join(kinds)
         return res
     finally:
         subprocess.call(["git", "-C", "/repo", "worktree", "remove", "--force", wt])
